@@ -55,105 +55,136 @@ def check(model, rep):
     rep.ob('R11.1', ij, 'row i = [q_i x n_i ; n_i] with q_i = bottom joint i, n_i = unit(top_i - bottom_i), six legs; poses saved, IK(requested) '
            '... rows ... IK(saved)', ok, 'inverseJacobian is not the Plucker-row construction inside the save / evaluate / restore bracket: ' + why)
 
-    # ---------------------------------------------------------------- R11.2
+    # ---------------------------------------------------------------- R11.2 / R11.3: sums of wrench contributions
+    # Both methods build a wrench as a sum.  They are analysed on their partial evaluation (private helpers inlined, the six-leg
+    # loops unrolled): on every path the value handed on is a sum whose terms are classified one by one.
+    from ..engine import peval as _pe
+    from ..engine.paths import paths_of
+    meths = {n_: f_.node for n_, f_ in sp.methods.items()}
+
+    def terms_of(text):
+        """terms of a sum given as source text (None when it is not a sum of recognisable terms)"""
+        try:
+            e = ast.parse(text, mode='eval').body
+        except SyntaxError:
+            return None
+        out = []
+
+        def walk(x):
+            if isinstance(x, ast.BinOp) and isinstance(x.op, ast.Add):
+                walk(x.left)
+                walk(x.right)
+            else:
+                out.append(x)
+        walk(e)
+        return out
+
+    def unrolled(fi_):
+        flat = _pe.flatten(meths, fi_.node, depth=2, impure=True)
+        left = [n for n in ast.walk(flat) if isinstance(n, (ast.For, ast.While))]
+        return flat, left
+
     rep.rule('R11.2', 'sumActuatorWrenches: one wrench per leg with point, direction and magnitude of the same leg')
     sw = sp.methods.get('sumActuatorWrenches')
-    loops = [n for n in sw.body() if isinstance(n, ast.For)]
-    ok = False
-    if len(loops) == 1:
-        lp = loops[0]
-        i = lp.target.id
-        ilw = Inliner(sw)
-        R = {i: 'I'}
-        aug = [n for n in lp.body if isinstance(n, ast.AugAssign)] + \
-              [n for n in lp.body if isinstance(n, ast.Assign) and isinstance(n.value, ast.BinOp) and isinstance(n.value.op, ast.Add) and src(n.targets[0]) == src(n.value.left)]
-        rets_w = [n for n in walk_own(sw.node) if isinstance(n, ast.Return) and n.value is not None]
-        accn = src(rets_w[0].value) if len(rets_w) == 1 else None
-        term = None
-        if len(aug) == 1:
-            term = aug[0].value if isinstance(aug[0], ast.AugAssign) else aug[0].value.right
-        tt = ilw.tree(term, roles=R) if term is not None else None
-        uv = '?'
-        ok_dir = ok_w = False
-        fp = sw.params[1]
-        if isinstance(tt, ast.Call) and norm_text(tt.func) == 'fsr.makeWrench' and len(tt.args) == 3:
-            pt, mag, uv = (norm_text(x) for x in tt.args)
-            ok_dir = uv in ('fmr.Normalize(self._bottom_joints_space[:,I]-self._top_joints_space[:,I])',
-                            'fmr.Normalize(self._top_joints_space[:,I]-self._bottom_joints_space[:,I])')
-            tgt = src(aug[0].target if isinstance(aug[0], ast.AugAssign) else aug[0].targets[0])
-            ok_w = tgt == accn and pt in ('self._top_joints_space[:,I]', 'self._bottom_joints_space[:,I]') and mag in ('float(%s[I])' % fp, '%s[I]' % fp)
-        rep.ob('R11.2', sw, 'direction along leg i', ok_dir, 'direction is %s' % uv, line=lp.lineno)
-        rep.ob('R11.2', sw, 'wrench += makeWrench(joint of leg i, force i, direction i)', ok_w, 'accumulation is %s' % (src(aug[0]) if aug else '?'), line=lp.lineno)
-        rep.ob('R11.2', sw, 'six legs', src(lp.iter).replace(' ', '') == 'range(6)', 'loop ranges over %s' % src(lp.iter), line=lp.lineno)
-    else:
-        rep.ob('R11.2', sw, 'leg loop', False, 'sumActuatorWrenches loop not recognised')
+    if sw is None:
+        raise AnalysisError('anchor vanished: SP.sumActuatorWrenches')
+    fp = sw.params[1]
+    flat, left = unrolled(sw)
+    rep.ob('R11.2', sw, 'six-leg loop has a constant trip count', not left, 'a loop of sumActuatorWrenches could not be unrolled (not over range(6))', shape=True)
+    n_paths = 0
+    for pth in paths_of(flat, sw.params, consts={'%sisNone' % fp: False}):
+        if pth.ret in (None, '<none>'):
+            continue
+        n_paths += 1
+        ts = terms_of(pth.ret)
+        legs, strange, bad = {}, [], []
+        for t in ts or []:
+            if not (isinstance(t, ast.Call) and norm_text(t.func) == 'fsr.makeWrench' and len(t.args) >= 3):
+                strange.append(norm_text(t)[:60])
+                continue
+            pt, mag, uv = (norm_text(x) for x in t.args[:3])
+            if mag == '0':
+                continue                      # the empty starting wrench
+            k = None
+            for k_ in range(6):
+                if pt in ('self._top_joints_space[:,%d]' % k_, 'self._bottom_joints_space[:,%d]' % k_):
+                    k = k_
+            if k is None:
+                bad.append('application point %s is not a joint of a leg' % pt)
+                continue
+            ok_dir = uv in ('fmr.Normalize(self._bottom_joints_space[:,%d]-self._top_joints_space[:,%d])' % (k, k),
+                            'fmr.Normalize(self._top_joints_space[:,%d]-self._bottom_joints_space[:,%d])' % (k, k))
+            import re as _re
+            mag_n = _re.sub(r'\.(flatten|ravel|copy|squeeze)\(\)|\.reshape\(\(?6,?\)?\)', '', mag)      # layout-only views of the force vector
+            ok_mag = mag_n in ('float(%s[%d])' % (fp, k), '%s[%d]' % (fp, k))
+            if not ok_dir:
+                bad.append('leg %d: direction is %s' % (k, uv))
+            if not ok_mag:
+                bad.append('leg %d: magnitude is %s' % (k, mag))
+            legs[k] = legs.get(k, 0) + 1
+        rep.ob('R11.2', sw, 'returned wrench is a sum of makeWrench terms', ts is not None and not strange, 'terms not recognised: %s' % strange[:2], shape=True, line=pth.ret_line)
+        rep.ob('R11.2', sw, 'point, direction and magnitude of each term belong to the same leg', not bad, '; '.join(bad[:3]), line=pth.ret_line)
+        rep.ob('R11.2', sw, 'six legs, one wrench each', legs == {k_: 1 for k_ in range(6)},
+               'legs contributing (leg: count) = %s' % dict(sorted(legs.items())), line=pth.ret_line)
+    rep.floor('R11.2', 'returning paths of sumActuatorWrenches', n_paths, 1)
 
     # ---------------------------------------------------------------- R11.3
     rep.rule('R11.3', 'carryMassCalc: load handed to staticForces = applied + top plate weight (at the top pose) + 6 shaft weights (at their cg); '
                       'motor / bottom plate weights only afterwards')
     cm = sp.methods.get('carryMassCalc')
+    if cm is None:
+        raise AnalysisError('anchor vanished: SP.carryMassCalc')
+    ap = cm.params[1]
+    flat, left = unrolled(cm)
+    rep.ob('R11.3', cm, 'six-leg loops have a constant trip count', not left, 'a loop of carryMassCalc could not be unrolled (not over range(6))', shape=True)
 
-    class Acc(EventDomain):
-        """marks = (frozenset of contributions added to `wrench` so far, solved?)"""
-
-        def _contrib(s, e):
-            e = ilc.text(e)
-            if e == 'fsr.makeWrench(self.getTopT(),self._top_plate_mass,self.grav)':
-                return 'top-plate@top'
-            if e == "fsr.makeWrench(self.getActuatorLoc(_0,'t'),self._act_shaft_mass,self.grav)":
-                return 'shaft_i@cg'
-            if e == "fsr.makeWrench(self.getActuatorLoc(_0,'b'),self._act_motor_mass,self.grav)":
-                return 'motor_i@cg'
-            if e == 'fsr.makeWrench(self.getBottomT(),self._bottom_plate_mass,self.grav)':
-                return 'bottom-plate@bottom'
-            return 'other:' + e[:50]
-
-        def on_store(s, target, value, stmt, state):
-            (got, solved), consts = state
-            if isinstance(target, ast.Name) and target.id == WR:
-                if isinstance(stmt, ast.AugAssign):
-                    got = got | {(s._contrib(stmt.value), s.in_loop)}
-                elif value is not None and isinstance(value, ast.BinOp) and isinstance(value.op, ast.Add) and src(value.left) == WR:
-                    got = got | {(s._contrib(value.right), s.in_loop)}
-                elif value is not None and src(value) == cm.params[1] + '.copy()':
-                    got = frozenset({('applied', None)})
+    def classify(ts):
+        got, strange = [], []
+        for t in ts or []:
+            tx = norm_text(t)
+            if tx in (ap, ap + '.copy()'):
+                got.append('applied')
+            elif tx == 'fsr.makeWrench(self.getTopT(),self._top_plate_mass,self.grav)':
+                got.append('top-plate@top')
+            elif tx == 'fsr.makeWrench(self.getBottomT(),self._bottom_plate_mass,self.grav)':
+                got.append('bottom-plate@bottom')
+            else:
+                for k_ in range(6):
+                    if tx == "fsr.makeWrench(self.getActuatorLoc(%d,'t'),self._act_shaft_mass,self.grav)" % k_:
+                        got.append('shaft_%d@cg' % k_)
+                        break
+                    if tx == "fsr.makeWrench(self.getActuatorLoc(%d,'b'),self._act_motor_mass,self.grav)" % k_:
+                        got.append('motor_%d@cg' % k_)
+                        break
                 else:
-                    got = got | {('other:' + src(stmt)[:40], None)}
-            return (((got, solved), consts),)
-
-        in_loop = None
-
-        def loop_may_skip(s, node, state):
-            return not src(node.iter).replace(' ', '').startswith('range(6')
-
-        def enter_loop(s, node, state):
-            s.in_loop = src(node.iter).replace(' ', '')
-            return super().enter_loop(node, state)
-
-        def on_call(s, call, state):
-            (got, solved), consts = state
-            if src(call.func) == 'self.staticForces' and call.args and src(call.args[0]) == WR:
-                seen.append(got)
-                solved = True
-            return (((got, solved), consts),)
-    seen = []
-    ilc = Inliner(cm)
-    sf = [c for c in walk_own(cm.node) if isinstance(c, ast.Call) and src(c.func) == 'self.staticForces' and c.args and isinstance(c.args[0], ast.Name)]
-    WR = sf[0].args[0].id if sf else '?'
-    exits = Flow(Acc()).run(cm.body(), {((frozenset(), False), frozenset())})
-    want = {('applied', None), ('top-plate@top', None), ('shaft_i@cg', 'range(6)')}
-    ok = bool(seen) and all({(c, l) for (c, l) in g} == want for g in seen)
-    rep.ob('R11.3', cm, 'load on the legs = applied + top plate + six shafts', ok,
-           'wrench handed to staticForces accumulates %s' % [sorted(g, key=str) for g in seen][:2])
-    after = set()
-    for e in exits:
-        if e.kind in ('return', 'fall'):
-            after |= {c for (c, l) in e.state[0][0]}
-    rep.ob('R11.3', cm, 'motor and bottom-plate weights only in the returned total', {'motor_i@cg', 'bottom-plate@bottom'} <= after and
-           not any(c.startswith('other') for c in after), 'returned total accumulates %s' % sorted(after))
-    rets = [n for n in walk_own(cm.node) if isinstance(n, ast.Return)]
-    got_r = ilc.text(rets[0].value, roles={WR: 'W'}) if len(rets) == 1 else '?'
-    rep.ob('R11.3', cm, 'returns (leg forces, total wrench)', got_r.replace('(', '').replace(')', '').startswith('self.staticForcesW,') and got_r.endswith(',W)'), 'returns %s' % got_r)
+                    strange.append(tx[:70])
+        return sorted(got), strange
+    want_load = sorted(['applied', 'top-plate@top'] + ['shaft_%d@cg' % k_ for k_ in range(6)])
+    want_total = sorted(want_load + ['bottom-plate@bottom'] + ['motor_%d@cg' % k_ for k_ in range(6)])
+    n_solves = 0
+    for pth in paths_of(flat, cm.params):
+        solves = pth.calls(lambda t: t == 'self.staticForces')
+        for ev in solves:
+            n_solves += 1
+            got, strange = classify(terms_of(ev[2][0]) if ev[2] else None)
+            rep.ob('R11.3', cm, 'load on the legs = applied + top plate + six shafts', got == want_load and not strange,
+                   'wrench handed to staticForces is the sum of %s%s' % (got, (' and of ' + str(strange[:2])) if strange else ''), line=ev[3])
+        if pth.ret in (None, '<none>'):
+            continue
+        try:
+            rt = ast.parse(pth.ret, mode='eval').body
+        except SyntaxError:
+            rt = None
+        ok_shape = isinstance(rt, ast.Tuple) and len(rt.elts) == 2
+        rep.ob('R11.3', cm, 'returns a pair', ok_shape, 'returns %s' % pth.ret[:80], shape=True, line=pth.ret_line)
+        if not ok_shape:
+            continue
+        first = norm_text(rt.elts[0])
+        rep.ob('R11.3', cm, 'returns (leg forces, total wrench)', first.startswith('self.staticForces(') , 'first returned value is %s' % first[:80], line=pth.ret_line)
+        got, strange = classify(terms_of(norm_text(rt.elts[1])))
+        rep.ob('R11.3', cm, 'motor and bottom-plate weights only in the returned total', got == want_total and not strange,
+               'returned total is the sum of %s%s' % (got, (' and of ' + str(strange[:2])) if strange else ''), line=pth.ret_line)
+    rep.floor('R11.3', 'static solves in carryMassCalc', n_solves, 1)
 
     # ---------------------------------------------------------------- R11.4
     rep.rule('R11.4', 'Robot routing: jacobian() = pinv(inverseJacobian()), statics through jacobian / jacobianBody (C06 table); SP defines inverseJacobian')
